@@ -253,27 +253,8 @@ def run(ctx) -> None:
                   f"{[unparse(c) for c in calls]}", loc=f.loc())
 
     # ---------------------------------------------------------------- R5
+    self_pattern_rule(ctx, "R5")
     prc = prog.function("config._parse_raw_config")
-    ctx.visit(prc.fq)
-    cfg = cfgs.get(prc.fq)
-    stores = [n for n in walk_no_nested(prc.node) if isinstance(n, ast.Assign) and isinstance(n.targets[0], ast.Subscript)
-              and unparse(n.targets[0]).replace('"', "'") == "raw_cfg['file_patterns'][ctx.config_rel_path]"]
-    ctx.floor("R5", "stores of the config file's own pattern", len(stores), 1)
-    blocked = [nid for st in stores for nid in cfg.nodes_of(st)]
-    pc = PathCond(cfg, blocked_nodes=blocked)
-    memb = [a for a in pc.atoms if a.replace('"', "'") == "ctx.config_rel_path in raw_cfg['file_patterns']"]
-    ctx.require(len(memb) == 1, "_parse_raw_config: membership test on raw_cfg['file_patterns'] not found")
-    ex = pc.reach(cfg.exit)
-    ctx.check("R5", ex.implies(BF.var(memb[0])),
-              "_parse_raw_config: every return either found the config file among file_patterns or inserted it",
-              "config._parse_raw_config: the config file's own current_version pattern can be missing",
-              f"without the insertion, return is reachable when {(ex & ~BF.var(memb[0])).to_dnf()}", loc=prc.loc())
-    for st in stores:
-        ok = shapes.flows_from(prc, st.value, lambda e: isinstance(e, ast.Call) and unparse(e.func) == "_parse_current_version_default_pattern")
-        ctx.check("R5", ok and isinstance(st.value, ast.List) and len(st.value.elts) == 1,
-                  "_parse_raw_config: inserted pattern is [_parse_current_version_default_pattern(...)]",
-                  "config._parse_raw_config: inserted self pattern does not come from the current_version line",
-                  f"`{unparse(st)}`", loc=prc.loc(st))
     dp = prog.function("config._parse_current_version_default_pattern")
     ctx.visit(dp.fq)
     rets = [n for n in walk_no_nested(dp.node) if isinstance(n, ast.Return)]
@@ -413,3 +394,39 @@ def canonical_keys_rule(ctx, rule: str) -> None:
                   f"`{unparse(y)}` reached when {r.to_dnf()}", loc=ge.loc(y), witness={"entries": ["docs/*.md", "./docs/install.md"]})
     if n_glob == 0 and not any(f.rule.endswith("/" + rule) for f in ctx.findings):
         ctx.floor(rule, "canonical glob-match yields", n_glob, 1)
+
+
+def self_pattern_rule(ctx, rule: str) -> None:
+    """_parse_raw_config: every return has the config file among file_patterns, guarded by exact key membership."""
+    prog, cfgs = ctx.prog, ctx.cfgs
+    prc = prog.function("config._parse_raw_config")
+    ctx.visit(prc.fq)
+    cfg = cfgs.get(prc.fq)
+    stores = [n for n in walk_no_nested(prc.node) if isinstance(n, ast.Assign) and isinstance(n.targets[0], ast.Subscript)
+              and unparse(n.targets[0]).replace('"', "'") == "raw_cfg['file_patterns'][ctx.config_rel_path]"]
+    if not stores:
+        ctx.bad(rule, "config._parse_raw_config: the config file's own current_version pattern is never inserted",
+                "no store `raw_cfg['file_patterns'][ctx.config_rel_path] = ...`: after an update the config keeps the old current_version", loc=prc.loc(),
+                what="_parse_raw_config inserts the self pattern")
+        return
+    blocked = [nid for st in stores for nid in cfg.nodes_of(st)]
+    pc = PathCond(cfg, blocked_nodes=blocked)
+    norm = lambda a: a.replace('"', "'").replace(".keys()", "").replace("set(", "").replace("list(", "").replace(")", "")
+    memb = [a for a in pc.atoms if norm(a) == "ctx.config_rel_path in raw_cfg['file_patterns']"]
+    ex = pc.reach(cfg.exit)
+    if len(memb) != 1:
+        guards = [a for a in ex.drop_unused().atoms]
+        ctx.bad(rule, "config._parse_raw_config: the self pattern is not guarded by exact membership of the config path among the file keys",
+                f"the insertion is skipped under {guards}: another entry (e.g. a nested file with the same base name) can suppress the config file's own current_version pattern",
+                loc=prc.loc(), what="_parse_raw_config: insertion guarded by `ctx.config_rel_path not in raw_cfg['file_patterns']`", witness={"entries": ["packages/core/setup.cfg"], "config": "setup.cfg"})
+    else:
+        ctx.check(rule, ex.implies(BF.var(memb[0])),
+                  "_parse_raw_config: every return either found the config file among file_patterns or inserted it",
+                  "config._parse_raw_config: the config file's own current_version pattern can be missing",
+                  f"without the insertion, return is reachable when {(ex & ~BF.var(memb[0])).to_dnf()}", loc=prc.loc())
+    for st in stores:
+        ok = shapes.flows_from(prc, st.value, lambda e: isinstance(e, ast.Call) and unparse(e.func) == "_parse_current_version_default_pattern")
+        ctx.check(rule, ok and isinstance(st.value, ast.List) and len(st.value.elts) == 1,
+                  "_parse_raw_config: inserted pattern is [_parse_current_version_default_pattern(...)]",
+                  "config._parse_raw_config: inserted self pattern does not come from the current_version line",
+                  f"`{unparse(st)}`", loc=prc.loc(st))
